@@ -90,6 +90,17 @@ FILTER_UNDEF = [rule({"sel": {"f1": "a"}}, "sel"),
                 {"title": "fu", "logsource": {"category": "c"}, "filter": {"rules": "any", "flt": {"user": "x"}, "condition": "not nosuch"}}]
 rec("error_filter_undefined_name", lambda: conv(None, FILTER_UNDEF))
 rec("error_filter_undefined_name_load", lambda: [[type(e).__name__ + ":" + str(e) for e in SigmaCollection.from_dicts(FILTER_UNDEF, collect_errors=True).errors]])
+FILTER_RULE_NAME = [rule({"selection": {"f1": "a"}, "exclusion": {"f2": "b"}}, "selection and not exclusion"),
+                    {"title": "fr", "logsource": {"category": "c"}, "filter": {"rules": "any", "flt": {"user": "x"}, "condition": "selection and not flt"}}]
+rec("error_filter_names_rule_detection", lambda: conv(None, FILTER_RULE_NAME))
+rec("error_filter_names_rule_detection_load", lambda: [[type(e).__name__ + ":" + str(e) for e in SigmaCollection.from_dicts(FILTER_RULE_NAME, collect_errors=True).errors]])
+GLOBAL_DOCS = [{"action": "global", "title": "g", "logsource": {"category": "c", "product": "windows"},
+                "detection": {"sel_zeta": {"f1": "a"}, "sel_alpha": {"f2": "b"}, "sel_beta": {"f3": "c"}, "flt_1": {"f4": "d"}}},
+               {"detection": {"sel_own": {"f5": "e"}, "condition": "1 of sel_* and not 1 of flt_*"}},
+               {"action": "repeat", "detection": {"sel_gamma": {"f6": "f"}, "sel_delta": {"f7": "g"}, "condition": "all of them"}}]
+rec("collection_global_repeat", lambda: conv(None, GLOBAL_DOCS))
+P_HASH = {"name": "h", "priority": 1, "transformations": [{"id": "h", "type": "hashes_fields", "valid_hash_algos": ["SHA256", "MD5", "SHA1", "IMPHASH"], "field_prefix": "File"}]}
+rec("error_hashes_unknown_algorithm", lambda: conv(P_HASH, [rule({"sel": {"Hashes|contains": "CRC32=abcdef01"}}), rule({"sel": {"Hashes|contains": ["MD5=0123456789abcdef0123456789abcdef", "IMPHASH=0123456789abcdef0123456789abcdef"]}})]))
 rec("to_dict_after_pipeline", lambda: (lambda r: (ProcessingPipeline.from_dict(P_MAP).apply(r), r.fields, sorted(r.detection.detections))[1:])(SigmaRule.from_dict(rule({"sel": {"f1": "a", "f2": "b"}}, fields=["f1", "f2"]))))
 
 
@@ -106,7 +117,7 @@ def validators():
 rec("validators", validators)
 
 # probe of set iteration orders realised by this hash seed (coverage measurement, not judged)
-probe_sets = {"refs3": ["ra", "rb", "rc"], "kw3": ["zeta", "alpha", "beta"], "ids3": ["c_zeta", "c_alpha", "c_beta"], "g3": ["g1", "g2", "g3"], "flags3": ["i", "m", "s"], "h2": ["h1", "h2"], "unm3": ["zeta", "alpha", "beta"], "flagnames3": ["IGNORECASE", "MULTILINE", "DOTALL"]}
+probe_sets = {"refs3": ["ra", "rb", "rc"], "kw3": ["zeta", "alpha", "beta"], "ids3": ["c_zeta", "c_alpha", "c_beta"], "g3": ["g1", "g2", "g3"], "flags3": ["i", "m", "s"], "h2": ["h1", "h2"], "unm3": ["zeta", "alpha", "beta"], "flagnames3": ["IGNORECASE", "MULTILINE", "DOTALL"], "dets3": ["sel_zeta", "sel_alpha", "sel_beta"], "algos3": ["SHA256", "MD5", "SHA1"]}
 orders = {k: list(set(v)) for k, v in probe_sets.items()}
 leak = sorted(set(re.findall(r"_(?:cond|filt)_[a-z]{10}", json.dumps(out, default=repr))))
 print(json.dumps({"out": out, "orders": orders, "leak": leak}, default=repr, sort_keys=True))
